@@ -107,6 +107,11 @@ func (e *vfErrReader) Read(p []byte) (int, error) {
 
 var errVfReader = errors.New("injected reader failure")
 
+// vfPreloadBackend: when set (PROXY=2), every fresh system starts with a
+// backend that already holds these entries (a non-initial state: blobs that
+// exist only in the backend, e.g. uploaded through another cache instance).
+var vfPreloadBackend []*vfCOp
+
 func vfNewCSys(dir, mode string, max int64, withProxy bool) *vfCSys {
 	vfCleanHot(dir)
 	s := &vfCSys{dir: dir, mode: mode, max: max, m: &vfCModel{content: map[string][]byte{}, backend: map[string][]byte{}}}
@@ -120,6 +125,12 @@ func vfNewCSys(dir, mode string, max int64, withProxy bool) *vfCSys {
 		panic(err)
 	}
 	s.cc, s.c = cc, vfUnwrap(cc)
+	if withProxy {
+		for _, o := range vfPreloadBackend {
+			s.proxy.Set(o.key.kind, o.key.hash, s.storedForm(o.key, o.data), int64(len(o.data)))
+			s.m.backend[o.key.String()] = o.data
+		}
+	}
 	return s
 }
 
@@ -413,20 +424,26 @@ func (s *vfCSys) step(o *vfCOp, check bool) []string {
 			bad = append(bad, fmt.Sprintf("C05 %s evicted %v although nothing had to be admitted", o.name, vfShort(victims)))
 		}
 		if victimsAllowed && len(victims) > 0 {
-			// candidate order: model recency without the key itself
+			// candidate order: model recency without the key itself - but only when the upload
+			// was admitted: the version a FAILED overwrite would have replaced stays ("which
+			// stays on disk until the new one is complete") and is an entry like any other
+			superseded := replaced
+			if !admitted {
+				superseded = ""
+			}
 			var cand []string
 			for _, x := range VfRecency(pre) {
-				if x != replaced {
+				if x != superseded {
 					cand = append(cand, x)
 				}
 			}
 			realVictims := victims
-			if _, had := preKeys[replaced]; had && replaced != "" {
+			if _, had := preKeys[superseded]; had && superseded != "" {
 				// the replaced version disappearing is not an eviction if
 				// the key is present again
 				var vv []string
 				for _, x := range victims {
-					if x != replaced {
+					if x != superseded {
 						vv = append(vv, x)
 					}
 				}
@@ -617,14 +634,24 @@ func TestVfE2Cache(t *testing.T) {
 	log.SetOutput(io.Discard)
 	prop := vlib.Param("PROPERTY", "C03")
 	mode := vlib.Param("MODE", "zstd")
-	withProxy := vlib.Param("PROXY", "0") == "1"
+	withProxy := vlib.Param("PROXY", "0") != "0"
+	preload := vlib.Param("PROXY", "0") == "2"
 	depth, _ := strconv.Atoi(vlib.Param("DEPTH", "3"))
 	maxBlocks, _ := strconv.Atoi(vlib.Param("MAXBLOCKS", "4"))
 	max := int64(maxBlocks) * BlockSize
-	rep := vlib.NewReport(prop, fmt.Sprintf("E2-cache:%s/max%d/proxy%v", mode, maxBlocks, withProxy))
+	rep := vlib.NewReport(prop, fmt.Sprintf("E2-cache:%s/max%d/proxy%v%s", mode, maxBlocks, withProxy, map[bool]string{true: "+preloaded", false: ""}[preload]))
 	defer rep.Write()
 	dir := filepath.Join(os.Getenv("VERIF_SCRATCH"), "cache")
 	alphabet := vfCAlphabet(mode, max, withProxy)
+	vfPreloadBackend = nil
+	if preload {
+		// the backend already holds the CAS blobs a and b and the action-cache value v1
+		for _, o := range alphabet {
+			if o.name == "put(cas,a)" || o.name == "put(cas,b)" || o.name == "put(ac,k,v1)" {
+				vfPreloadBackend = append(vfPreloadBackend, o)
+			}
+		}
+	}
 	var hot []string
 	for _, o := range alphabet {
 		if o.key.hash != "" {
